@@ -1,0 +1,6 @@
+//go:build !verif
+// +build !verif
+
+package db
+
+func verifBeforeWrite(kind string, key []byte) {}
